@@ -42,6 +42,8 @@ package main
 //@   lensures [C17] (result == 2 <==> !success) && (result == 1 <==> success && hadDiff) && (result == 0 <==> success && !hadDiff)
 //@   loop 1 invariant LOGGED[0] >= old(LOGGED[0]) && STDOUT[0] >= old(STDOUT[0])
 //@   loop 1 invariant [C17] (!success ==> LOGGED[0] > old(LOGGED[0])) && (hadDiff ==> STDOUT[0] > old(STDOUT[0]))
+//@   loop 1 invariant [C17] success && !hadDiff ==> forall k :: 0 <= k && k < done ==> len(outs[k].Content) == 0 || FSPRESENT[outs[k].OutputPath]
+//@   lensures [C17] result == 0 ==> forall k :: 0 <= k && k < len(outs) ==> len(outs[k].Content) == 0 || FSPRESENT[outs[k].OutputPath]
 
 //@ func (*checkCmd).Execute
 //@   ensures [C17] FSWCOUNT[0] == old(FSWCOUNT[0])
